@@ -193,6 +193,10 @@ int sqfs_dir_writer_add_entry(sqfs_dir_writer_t *writer, const char *name,
 	if (name[0] == '\0' || inode_num < 1)
 		return SQFS_ERROR_ARG_INVALID;
 
+	/* the on-disk entry stores the length minus one in 16 bits */
+	if (strlen(name) > 0x10000)
+		return SQFS_ERROR_ARG_INVALID;
+
 	err = add_export_table_entry(writer, inode_num, inode_ref);
 	if (err)
 		return err;
